@@ -247,6 +247,16 @@ func (t *ftrans) expr(e ast.Expr, env *fenv) (string, ltype, error) {
 			return "(" + a + " - " + b + ")", la, nil
 		case token.MUL:
 			return "(" + a + " * " + b + ")", la, nil
+		case token.QUO:
+			if la.signed {
+				return "(BitVec.sdiv " + a + " " + b + ")", la, nil // Go truncated division; x/0 panics in Go (not modelled)
+			}
+			return "(" + a + " / " + b + ")", la, nil
+		case token.REM:
+			if la.signed {
+				return "(BitVec.srem " + a + " " + b + ")", la, nil
+			}
+			return "(" + a + " % " + b + ")", la, nil
 		case token.AND:
 			return "(" + a + " &&& " + b + ")", la, nil
 		case token.OR:
